@@ -4,8 +4,10 @@ mod case;
 mod driver;
 mod engine;
 mod hist;
+mod known;
 mod model;
 mod props;
+mod sched;
 mod sock;
 mod wrap;
 
